@@ -133,6 +133,41 @@ pub fn run(ctx: &Ctx, rep: &mut Report) {
                 }
             }
         }
+        // application identifiers that exist: the registered designated area codes (0 test, 1
+        // international / IMO, 200 inland waterways, 235 UK, 250 Ireland, 265 Sweden, 316 Canada,
+        // 366 / 367 USA, 1023 top) x every function id, with payloads of the sizes those
+        // applications use and a little more, whose last byte(s) are zero, whose first bytes are zero,
+        // or which are all zero: the payload is opaque - no byte may be dropped or re-interpreted
+        if t != 17 && ctx.mine(item) {
+            let (dac_at, fid_at) = if t == 6 { (72usize, 82usize) } else { (40usize, 50usize) };
+            for dac in [0u64, 1, 200, 235, 250, 265, 316, 366, 367, 1023] {
+                for fid in 0..64u64 {
+                    for bytes in [0usize, 1, 8, 17, 18, 19, 20, 21, 22, 23, 31, 60] {
+                        for kind in 0..4 {
+                            let l = hdr + 8 * bytes;
+                            let mut bits = content(0, l, hdr, &mut r);
+                            bits.put(0, 6, t as u64);
+                            bits.put(dac_at, 10, dac);
+                            bits.put(fid_at, 6, fid);
+                            match kind {
+                                0 => bits.put(l.saturating_sub(8).max(hdr), (l - hdr).min(8), 0),
+                                1 => bits.put(l.saturating_sub(24).max(hdr), (l - hdr).min(24), 0),
+                                2 => bits.put(hdr, (l - hdr).min(16), 0),
+                                _ => {
+                                    for i in hdr..l {
+                                        bits.set(i, 0);
+                                    }
+                                }
+                            }
+                            let via = [Via::Raw, Via::Armor, Via::Direct, Via::Line][(fid as usize + bytes + kind) % 4];
+                            gen::run_message_mask(rep, PID, mask, &bits, via, "application-identifier");
+                        }
+                    }
+                }
+                rep.class(format!("t{}|application-identifier|dac{}", t, dac));
+            }
+        }
+        item += 1;
         // header field sweeps: every value of every header field (dac 2^10, fid 2^6, ...)
         let base = {
             let mut b = Bits::random(hdr + 64, &mut r);
